@@ -12,17 +12,10 @@ NOT_APPLICABLE = {   # id -> reason, for properties that are deliberately not cl
            "input; the reader half of the round trip (comp_read) exhausted 16 GB at 1 chunk / 2 reads with every model tried (DESIGN.md section 7), so a round trip "
            "cannot be encoded within reach of CBMC in this sandbox.  Pieces that are decided elsewhere: header_create seals what the reader hashes (C06 h06w), "
            "chunks_from_temp under faults (C12 h12t), compint encode/decode round trip (C20), chunk-end decoding step (C15 h15u).  No check is claimed.",
-    "C02": "Needs the whole read path (comp_read loop with zmalloc/zrealloc'd buffers over a symbolic body) against a reference decoder; the smallest instance "
-           "(empty dictionary + 1 data chunk of <= 2 bytes, 2 reads) ran out of 16 GB with exact allocations, with the capacity-padded allocator model and with the "
-           "checksum verdict abstracted (harness/C15.c h15r/h15v, not registered).  Decided parts: header gate (C06), metadata (C13), chunk-end step incl. the "
-           "declared-size check (C15 h15u, labels C02/...), data-digest verdict (C09 h09b).",
     "C04": "Composition of scan (C09), copy (C08), range computation (C10) and reassembly (C05) in a fetch loop with a model server; each lemma is decided separately, "
            "the loop itself (several contexts, three files, multipart responses needing glibc regex semantics) is beyond what CBMC encodes here; zck_dl.c's libcurl loop is FFI.",
     "C11": "Same composition as C04 plus a symbolic crash point and a restart; rests on C09 (validity is recomputed from bytes for ANY on-disk state, incl. the "
            "truncated-file defects fixed here) and C05/C08, which are decided; the crash/restart loop itself is not encoded.",
-    "C14": "zck_get_chunk_data runs comp_reset/comp_init/import_dict/comp_read per request: the same read loop that could not be encoded (see C02); harness h14 in "
-           "harness/C15.c is written but does not finish.  The defects named in the property (data_eof not cleared, nocomp position not reset) were seen by reading only "
-           "and are NOT fixed or claimed.",
     "C16": "Determinism/locality of chunking quantifies over pairs of whole writer runs (two segmentations / two contents) through zck_write with buzhash: twice the "
            "writer path that is out of reach for C01; buzhash alone is a leaf kernel but the property is about zck_write's use of it.",
     "C19": "The property is about thread interleavings.  CBMC's thread encoding reported SUCCESS on two deliberately racy toy programs and goto-instrument --race-check "
